@@ -38,7 +38,8 @@ func dateAt(atNs int64, offSec int64) string {
 }
 
 var bigNums = []string{"2147483647", "2147483648", "2147483649", "4294967296", "9223372035", "9223372036",
-	"9223372037", "9223372036854775807", "9223372036854775808", "18446744073709551616", "99999999999999999999"}
+	"9223372037", "9223372036854775807", "9223372036854775808", "9223372036854775809", "18446744073709551615",
+	"18446744073709551616", "18446744073709551617", "13835058055282163712", "99999999999999999999"}
 
 func (g *G) lifetime() int64 { return pick(g, int64(0), 1, 2, 5, 10, 60, 100, 3600, 86400) }
 
